@@ -13,6 +13,14 @@ TARGET = os.path.join(VERIF, "build", "replay-target")
 BIN = os.path.join(TARGET, "release", "zk_replay")
 
 
+def build_cl():
+    import cl_env
+    p = subprocess.run(["cargo", "build", "--release", "--offline"], cwd=os.path.join(VERIF, "replay_cl"), env=cl_env.env(), capture_output=True, text=True)
+    if p.returncode != 0:
+        return p.stderr[-3000:]
+    return None
+
+
 def build():
     env = dict(os.environ, CARGO_TARGET_DIR=TARGET, CARGO_NET_OFFLINE="true")
     p = subprocess.run(["cargo", "build", "--release", "--offline"], cwd=os.path.join(VERIF, "replay"), env=env, capture_output=True, text=True)
@@ -95,7 +103,22 @@ def plan(label, fn):
         return []
 
 
+CL_BUILT = {}
+
+
 def run_family(fam, tier):
+    if fam.startswith("cl_"):
+        import cl_env
+        if "done" not in CL_BUILT:
+            err = build_cl()
+            if err:
+                raise RuntimeError("cl_replay does not build against the current tree: " + err)
+            CL_BUILT["done"] = True
+        p = subprocess.run([cl_env.BIN, fam, tier], capture_output=True, text=True, timeout=3000)
+        if p.returncode != 0:
+            raise RuntimeError(f"cl_replay {fam} failed: {p.stderr[-500:]}")
+        line = [l for l in p.stdout.splitlines() if l.startswith("@@JSON ")][-1]
+        return json.loads(line[7:])["probes"]
     p = subprocess.run([BIN, fam, tier], capture_output=True, text=True, timeout=800)
     if p.returncode != 0:
         raise RuntimeError(f"zk_replay {fam} failed: {p.stderr[-500:]}")
@@ -118,7 +141,23 @@ def main():
     if a.rerun:
         doc = json.load(open(a.rerun))
         bad = 0
+        cl_cache = {}
         for fi in (doc.get("replay") or {}).get("failing_inputs", []):
+            if fi["id"].startswith("cl_"):
+                # CL03 probes are identified structurally (keys are drawn afresh): re-run the family and look the probe up
+                fam = fi["id"].split("/")[0]
+                if fam not in cl_cache:
+                    cl_cache[fam] = {}
+                    for tier in ("quick", "thorough"):
+                        for p in run_family(fam, tier):
+                            cl_cache[fam].setdefault(p["id"], p)
+                        if all(x["id"] in cl_cache[fam] for x in doc["replay"]["failing_inputs"] if x["id"].startswith(fam + "/")):
+                            break
+                now = cl_cache[fam].get(fi["id"], {}).get("outcome", "probe-not-found")
+                same = now.split(":")[0] == fi["outcome"].split(":")[0]
+                bad += 1 if same else 0
+                print(f"{fi['id']}: recorded {fi['outcome'][:60]} | now {now[:60]} | {'STILL FAILS' if same else 'changed'}")
+                continue
             p = subprocess.run([BIN, "one", fi["call"]] + fi["inputs"], capture_output=True, text=True)
             try:
                 now = json.loads(p.stdout)["outcome"]
@@ -133,12 +172,16 @@ def main():
         tried = 0
         failing = []
         for fam in a.sweep.split(","):
-            probes = run_family(fam, a.tier)
+            try:
+                probes = run_family(fam, a.tier)
+            except Exception as e:
+                print(json.dumps({"error": repr(e)[:1500], "failing_inputs": []}))
+                return 0
             tried += len(probes)
             for p in probes:
                 if families_ext._viol(p) and not any(t.startswith("known-") for t in p["tags"]):
                     failing.append({"id": p["id"], "call": p["call"], "inputs": p["inputs"], "outcome": p["outcome"], "why": "outcome contradicts the property"})
-        print(json.dumps({"families": a.sweep.split(","), "tried": tried, "failing_count": len(failing), "failing_inputs": failing[:12]}))
+        print(json.dumps({"families": a.sweep.split(","), "tried": tried, "failing_count": len(failing), "failing_inputs": failing[:400]}))
         return 0
     steps = plan(a.label, a.fn)
     tried = 0
